@@ -115,6 +115,8 @@ def walk_paths(ssa, max_visits=3, max_paths=400):
     params = {key(p): p[3] for p in ssa[2][1:]}
     problems = []
     count = [0]
+    all_targets = set(tuple(s[2][1:4]) for b in blocks for s in b[3] if s[0] == "subst")
+    arrivals = {}      # (block, key of the phi) -> versions that arrived along the walked edges ("-": none yet)
 
     def go(b, L, visits, prev):
         if problems or count[0] > max_paths:
@@ -126,6 +128,7 @@ def walk_paths(ssa, max_visits=3, max_paths=400):
             if s[0] == "subst" and s[4][0] == "phi":
                 k = key(s[2])
                 cur = L.get(k)
+                arrivals.setdefault((b, k), set()).add(cur if cur is not None else "-")
                 if cur is not None and not any(key(a) == k and a[3] == cur for a in s[4][1]):
                     problems.append("edge %s->%s: running version %s of %s is not an argument of its phi" % (prev, b, cur, sexp.unhex(k[0])))
                 new[k] = s[2][3]
@@ -140,6 +143,10 @@ def walk_paths(ssa, max_visits=3, max_paths=400):
                 if v[3] != "-":
                     cur = L.get(key(v))
                     if cur is None and upd_base == tuple(v[1:4]):
+                        # the first element-wise update of a never-assigned array reads a fresh version: no statement may define it
+                        if upd_base in all_targets:
+                            problems.append("block %s: the base %s.%s of the first element-wise update (no version is running there) is defined by a statement of the graph"
+                                            % (b, sexp.unhex(v[1]), v[3]))
                         continue
                     if cur != v[3]:
                         problems.append("block %s: read of %s.%s but the most recent assignment on the path is version %s"
@@ -156,6 +163,26 @@ def walk_paths(ssa, max_visits=3, max_paths=400):
                 go(s, L, v2, b)
 
     go(0, params, {0: 1}, None)
+    if not problems and count[0] <= max_paths:
+        # every argument of a phi is the version that arrives along some edge (the walk was not cut: every edge was taken)
+        for bi, blk in enumerate(blocks):
+            for s in blk[3]:
+                if not (s[0] == "subst" and s[4][0] == "phi"):
+                    break
+                k = key(s[2])
+                seen = arrivals.get((bi, k))
+                if seen is None:
+                    continue           # block not reached by the walk
+                args = [a[3] for a in s[4][1]]
+                if any(key(a) != k for a in s[4][1]):
+                    problems.append("block %s: a phi for %s has an argument of another variable" % (bi, sexp.unhex(k[0])))
+                elif len(set(args)) != len(args):
+                    problems.append("block %s: the phi for %s lists an argument twice" % (bi, sexp.unhex(k[0])))
+                else:
+                    extra = [a for a in args if a not in seen]
+                    if extra:
+                        problems.append("block %s: argument(s) %s of the phi for %s arrive along no edge into the block (arriving: %s)"
+                                        % (bi, ", ".join(extra), sexp.unhex(k[0]), ", ".join(sorted(seen))))
     return problems, count[0]
 
 
@@ -186,6 +213,49 @@ def erase_ok(pre, ssa):
     return len(pre[4]) == len(ssa[4])
 
 
+OWN_FEATURES = {
+    "shadowed_name": "a local re-declared in a nested scope (internal suffix)",
+    "array_updated_element_wise": "an element-wise update of an array",
+    "variable_assigned_in_one_branch_only": "a phi one of whose arguments is the version from before the branch (or the unversioned name)",
+    "nested_loops": "a block of loop depth >= 2",
+    "reassigned_parameter": "an assignment to a parameter",
+    "phi_statement": "a phi statement",
+}
+
+
+def own_features(pre, ssa):
+    """C14's own classes of the quantifier text, counted on the dumps of one definition."""
+    out = set()
+    params = set((q[1], q[2]) for q in pre[2][1:])
+    if any(d[0][2] != "-" for d in ssa[3][1:]):
+        out.add("shadowed_name")
+    for b in ssa[4][1:]:
+        if int(b[2]) >= 2:
+            out.add("nested_loops")
+        for s in b[3]:
+            if s[0] == "subst":
+                if s[4][0] == "update":
+                    out.add("array_updated_element_wise")
+                if (s[2][1], s[2][2]) in params and s[4][0] != "phi":
+                    out.add("reassigned_parameter")
+                if s[4][0] == "phi":
+                    out.add("phi_statement")
+                    if len(b[4]) == 2 and len(s[4][1]) == 2 and any(a[3] == "-" for a in s[4][1]):
+                        out.add("variable_assigned_in_one_branch_only")
+    # assigned in one branch only: a join whose phi takes the version that was current at the branch
+    defs_block = {}
+    for b in ssa[4][1:]:
+        for s in b[3]:
+            if s[0] == "subst" and s[2][3] != "-":
+                defs_block[tuple(s[2][1:4])] = int(b[1])
+    for b in ssa[4][1:]:
+        for s in b[3]:
+            if s[0] == "subst" and s[4][0] == "phi" and len(b[4]) == 2:
+                if any(defs_block.get(tuple(a[1:4])) is not None and defs_block[tuple(a[1:4])] not in [int(q) for q in b[4]] and defs_block[tuple(a[1:4])] < int(b[1]) for a in s[4][1]):
+                    out.add("variable_assigned_in_one_branch_only")
+    return out
+
+
 def run(ctx, proofs):
     H = common.build_harness("ir")
     M = common.build_model("ir")
@@ -214,6 +284,8 @@ def run(ctx, proofs):
             continue
         x = sexp.parse(o)
         propeng.features_of(x[1], features, None, proggen.PRIMES[progs[i][0]], progs[i][1])
+        for f in own_features(x[1], x[2]):
+            features[f] = features.get(f, 0) + 1
         mlines.append("ssa %s %s" % (sexp.show(x[1]), sexp.show(x[4])))
         mkeys.append((i, x[2]))
         lines.append("ssacheck %s %s" % (sexp.show(x[2]), sexp.show(x[3])))
@@ -265,26 +337,27 @@ def run(ctx, proofs):
                                   "model": sexp.show(ssacanon.canon(sexp.parse(o)))[:600]})
     for f in failing[:5]:
         ctx.violation("SSA form violates C14: " + f["spec"], f)
-    if not failing:
-        if invalid:
-            ctx.violation("the verified validator SsaCheck.ssa_check rejects the implementation's SSA graph (%d definitions); the path walk "
-                          "found no disagreeing read" % len(invalid),
-                          {"broken": "validation of the implementation's SSA output by SsaCheck.ssa_check", "first": invalid[0], "answers": invalid_answers}, no_input=True)
-        elif disagreements:
-            ctx.violation("correspondence Model.Ssa.into_ssa vs Cfg::into_ssa broken (%d definitions); the SSA graphs themselves passed the "
-                          "validator and the path walk" % len(disagreements),
-                          {"broken": "correspondence ssa (Model.Ssa.into_ssa)", "first": disagreements[0]}, no_input=True)
-        elif hyp_bad:
-            ctx.violation("a graph handed to SSA conversion does not meet the hypotheses of the construction theorems (%s; %d definitions)" % (hyp_bad[0]["answer"], len(hyp_bad)),
-                          {"broken": "hypotheses pre_ssa_ok / children_cover of C14_construction_*", "first": hyp_bad[0]}, no_input=True)
-        elif proofs["failures"]:
-            ctx.violation("proof obligations of C14 no longer check: " + "; ".join(proofs["failures"])[:400],
-                          {"broken": "props/C14.v", "failures": proofs["failures"]}, no_input=True)
+    # Each of these is reported whatever else failed (fourth audit: they used to be an elif chain, each shown only when the
+    # ones before were empty); the source text of the first definition concerned is in the record.
+    if invalid:
+        ctx.violation("the verified validator (ssa_check / unversioned_reads_ok / ssa_strict) rejects the implementation's SSA graph (%d definitions%s)"
+                      % (len(invalid), "" if failing else "; the path walk found no disagreeing read"),
+                      {"broken": "validation of the implementation's SSA output by SsaCheck.ssa_check", "first": invalid[0], "first_source": invalid[0], "answers": invalid_answers}, no_input=True)
+    if disagreements:
+        ctx.violation("correspondence Model.Ssa.into_ssa vs Cfg::into_ssa broken (%d definitions)%s" % (len(disagreements), "" if (failing or invalid) else
+                      "; the SSA graphs themselves passed the validator and the path walk"),
+                      {"broken": "correspondence ssa (Model.Ssa.into_ssa)", "first": disagreements[0]}, no_input=True)
+    if hyp_bad:
+        ctx.violation("a graph handed to SSA conversion does not meet the hypotheses of the construction theorems (%s; %d definitions)" % (hyp_bad[0]["answer"], len(hyp_bad)),
+                      {"broken": "hypotheses pre_ssa_ok / children_cover of C14_construction_*", "first": hyp_bad[0]}, no_input=True)
+    if proofs["failures"]:
+        ctx.violation("proof obligations of C14 no longer check: " + "; ".join(proofs["failures"])[:400],
+                      {"broken": "props/C14.v", "failures": proofs["failures"]}, no_input=True)
     if wit_bad:
         ctx.violation("the validator (ssa_check + unversioned_reads_ok + SsaStrict.ssa_strict) accepts a mutated graph that violates C14, or rejects "
                       "its unmutated original (%d of %d witnesses of corpus/C14/rejected)" % (len(wit_bad), len(wit)),
                       {"broken": "strength of the validator on the rejected-graph corpus", "first": wit_bad[0]}, no_input=True)
-    need = [f for f in propeng.FEATURES if f not in ("dimension_with_value_claim_on_a_non_literal", "lookalike_pair_one_constant_one_not")]
+    need = [f for f in propeng.FEATURES if f not in ("dimension_with_value_claim_on_a_non_literal", "lookalike_pair_one_constant_one_not")] + list(OWN_FEATURES)
     missing = [f for f in need if not features.get(f)]
     if missing:
         ctx.violation("degenerate exploration: features named in the rule text were never produced in this run: %s" % ", ".join(missing),
